@@ -44,6 +44,11 @@ def expr(rng, depth):
 class Namer:
     def __init__(self):
         self.i = 0
+        self.ids = 0
+
+    def next_id(self):
+        self.ids += 1
+        return self.ids
 
     def next(self):
         self.i += 1
@@ -95,8 +100,8 @@ def elem_c07(nm, rng):
     return {"e": "evveto", "tgt": rng.choice(["b", "ab"])}
 
 
-def wrapper(rng, inner):
-    k = rng.choice(["box", "opt", "vec1", "reload", "boxbox", "optbox"])
+def wrapper(rng, inner, nm=None):
+    k = rng.choice(["box", "opt", "vec1", "reload", "reload", "boxbox", "optbox"])
     if k == "box":
         return {"e": "box", "inner": inner}
     if k == "opt":
@@ -104,20 +109,25 @@ def wrapper(rng, inner):
     if k == "vec1":
         return {"e": "vec", "items": [inner]}
     if k == "reload":
-        return {"e": "reload", "inner": inner}
+        e = {"e": "reload", "inner": inner}
+        if nm is not None:
+            e["id"] = nm.next_id()
+        return e
     if k == "boxbox":
         return {"e": "box", "inner": {"e": "box", "inner": inner}}
     return {"e": "opt", "inner": {"e": "box", "inner": inner}}
 
 
 def elem_c09(nm, rng):
-    k = rng.choice(["rec", "rec", "wrapped", "wrapped", "wrapped", "none", "emptyvec", "identity", "and_then", "vec2", "evveto", "wrapped_none"])
+    k = rng.choice(["rec", "rec", "wrapped", "wrapped", "wrapped", "none", "emptyvec", "identity", "and_then", "vec2", "evveto", "wrapped_none", "swap", "swap"])
     if k == "rec":
         return rec(nm, rng, sometimes=True)
     if k == "wrapped_none":     # an absent layer behind further wrappers: Some(None), Box(None), Some(vec![]), [None], reload(None) ...
         return wrapper(rng, rng.choice([{"e": "opt", "inner": None}, {"e": "vec", "items": []}]))
     if k == "wrapped":
-        return wrapper(rng, rec(nm, rng, sometimes=True))
+        return wrapper(rng, rec(nm, rng, sometimes=True), nm)
+    if k == "swap":              # reload handle over Some(layer) / None, switched during the history
+        return {"e": "swap", "id": nm.next_id(), "on": rng.random() < 0.6, "inner": rec(nm, rng)}
     if k == "none":
         return {"e": "opt", "inner": None}
     if k == "emptyvec":
@@ -125,17 +135,19 @@ def elem_c09(nm, rng):
     if k == "identity":
         return {"e": "identity"}
     if k == "and_then":
-        return {"e": "and_then", "a": rec(nm, rng), "b": wrapper(rng, rec(nm, rng)) if rng.random() < 0.5 else rec(nm, rng)}
+        return {"e": "and_then", "a": rec(nm, rng), "b": wrapper(rng, rec(nm, rng), nm) if rng.random() < 0.5 else rec(nm, rng)}
     if k == "vec2":
-        items = [rec(nm, rng), wrapper(rng, rec(nm, rng))]
+        items = [rec(nm, rng), wrapper(rng, rec(nm, rng), nm)]
         if rng.random() < 0.4:
             items.insert(rng.randint(0, 2), {"e": "opt", "inner": None})
         return {"e": "vec", "items": items}
     return {"e": "evveto", "tgt": "b"}
 
 
-def flatten(elems):
+def flatten(elems, on=None):
+    """`on`: the current state of the swap elements (id -> present?), default: as built"""
     flat = {"layers": [], "globals": [], "vetoes": []}
+    on = on or {}
 
     def go(e, fs):
         if e is None:
@@ -159,6 +171,9 @@ def flatten(elems):
                 go(x, fs)
         elif k in ("opt", "box", "reload"):
             go(e["inner"], fs)
+        elif k == "swap":
+            if on.get(e["id"], e["on"]):
+                go(e["inner"], fs)
         elif k == "identity":
             pass
         else:
@@ -170,8 +185,27 @@ def flatten(elems):
 
 
 # ---------------------------------------------------------------- histories
-def history(rng, steps, nthreads, flavour):
+def ctl_ids(elems):
+    """(ids of elements whose write lock can be held, swap elements by id)"""
+    holds, swaps = [], {}
+
+    def go(e):
+        if not isinstance(e, dict):
+            return
+        if e.get("e") in ("reload", "swap") and "id" in e:
+            holds.append(e["id"])
+        if e.get("e") == "swap":
+            swaps[e["id"]] = e["on"]
+        for x in [e.get("inner"), e.get("a"), e.get("b")] + list(e.get("items", [])):
+            go(x)
+    for e in elems:
+        go(e)
+    return holds, swaps
+
+
+def history(rng, steps, nthreads, flavour, elems=None):
     out = []
+    holds, swaps = ctl_ids(elems or [])
     serial = 0
     live = {}  # serial -> dict(children=set(), thread entered list)
     ent = {t: [] for t in range(1, nthreads + 1)}
@@ -189,6 +223,8 @@ def history(rng, steps, nthreads, flavour):
             ops += ["exit"] * 3
         if flavour == "c09":
             ops += ["rebuild"] if rng.random() < 0.2 else []
+            if swaps and not live:
+                ops += ["swap"] * 3
         op = rng.choice(ops)
         m = {"lvl": rng.randint(1, 5), "tgt": rng.choice(TGTS), "kind": "event"}
         if op == "event":
@@ -202,6 +238,11 @@ def history(rng, steps, nthreads, flavour):
             out.append({"op": "setflag", "t": t, "ctx": ["p"] if flag_on else []})
         elif op == "rebuild":
             out.append({"op": "rebuild", "t": t})
+        elif op == "swap":
+            # only while no span is alive: which spans a layer that comes and goes "has seen" is not this property
+            k = rng.choice(list(swaps))
+            swaps[k] = not swaps[k]
+            out.append({"op": "swap", "t": 1, "id": k, "on": swaps[k], "flat": flatten(elems, swaps)})
         elif op == "new":
             if serial >= 30:
                 continue
@@ -234,7 +275,10 @@ def history(rng, steps, nthreads, flavour):
                 continue
             s = rng.choice(cands)
             del live[s]
-            out.append({"op": "drop", "t": t, "s": s})
+            st = {"op": "drop", "t": t, "s": s}
+            if holds and rng.random() < 0.5:
+                st["during_modify"] = rng.choice(holds)
+            out.append(st)
     return out
 
 
@@ -270,7 +314,7 @@ def behaviour(rng, flavour):
         elems = [elem_c09(nm, rng) for _ in range(n)]
         cwrap = rng.choice(["", "", "box", "arc", "boxbox"])
     return {"src": "random-" + flavour, "stack": elems, "flat": flatten(elems), "cwrap": cwrap, "log_reg": flavour == "c09",
-            "steps": history(rng, 50, rng.choice([1, 1, 2]), flavour)}
+            "steps": history(rng, 50, rng.choice([1, 1, 2]), flavour, elems)}
 
 
 def execute(behs, name, mode):
